@@ -487,8 +487,45 @@ def template_loop_shape(ctx, rule, repo, kind):
                                 callee_pos=names.index(c.func.id), name_pos=names.index(nv) if nv in names else None)
             ctx.undecided(rule, t.func, 'loop block template at line %d' % t.lineno, 'shape not recognised: %s' % t.holed.strip()[:120], t.lineno)
             return None
-    ctx.undecided(rule, ('bisturi/codegen.py', want), 'loop block template', 'template not found')
+    # the two per-field generators merged / the templates kept in named constants: the loop block of
+    # a kind is the template  ``<4 names> = fields[i]`` + one call of one of those names, which for
+    # unpack assigns the cursor and for pack does not
+    cands = []
+    for t in repo.templates():
+        if t.tree is None:
+            continue
+        body = [s for s in t.tree.body]
+        if len(body) == 2 and isinstance(body[0], ast.Assign) and isinstance(body[0].targets[0], ast.Tuple):
+            tgt = body[0].targets[0]
+            names = [x.id for x in tgt.elts if isinstance(x, ast.Name)]
+            s = body[1]
+            c = s.value if isinstance(s, (ast.Expr, ast.Assign)) else None
+            if len(names) == 4 and isinstance(c, ast.Call) and isinstance(c.func, ast.Name) and c.func.id in names:
+                is_unpack = isinstance(s, ast.Assign) or any(k.arg in ('raw', 'offset') for k in c.keywords)
+                if is_unpack == (kind == 'unpack'):
+                    cands.append(dict(template=t, assign=body[0], stmt=s, call=c, names=names,
+                                      callee_pos=names.index(c.func.id), name_pos=names.index(nv) if nv in names else None))
+    if len(cands) == 1:
+        return cands[0]
+    ctx.undecided(rule, ('bisturi/codegen.py', want), 'loop block template', 'template not found' if not cands else '%d candidate loop block templates' % len(cands))
     return None
+
+
+def loop_generators(repo):
+    """the functions of the code generator that own the per-field loop block templates:
+    [(FuncInfo, [kinds it serves])] -- two functions with one kind each on the pristine tree, one
+    function serving both kinds when the two were merged"""
+    owners = {}
+    for kind in ('pack', 'unpack'):
+        class _Q:           # a throw-away context: template_loop_shape reports "not found" through it
+            def undecided(self, *a, **k):
+                return None
+        sh = template_loop_shape(_Q(), 'x', repo, kind)
+        if sh is not None:
+            f = sh['template'].func
+            # a template seen through an expanded helper belongs to the function that holds the text
+            owners.setdefault(f.id, (f, []))[1].append(kind)
+    return list(owners.values())
 
 
 def handler_name_var(d):
